@@ -52,6 +52,20 @@ func (pq *plotterQueue) Pop() (*queuedWorkSpace, float32) {
 	return ws, priority
 }
 
+// TryPopItem pops the next item if there is one. Checking Empty() and calling PopItem()
+// separately is not safe: StopWS/RemoveWS/DeleteWS may empty the queue in between.
+func (pq *plotterQueue) TryPopItem() (*queuedWorkSpace, bool) {
+	pq.Lock()
+	defer pq.Unlock()
+
+	if pq.Prque.Empty() {
+		return nil, false
+	}
+	ws := pq.Prque.PopItem().(*queuedWorkSpace)
+	pq.poppedItem = ws
+	return ws, true
+}
+
 func (pq *plotterQueue) PopItem() *queuedWorkSpace {
 	pq.Lock()
 	defer pq.Unlock()
@@ -164,7 +178,7 @@ func (sk *SpaceKeeper) spacePlotter() {
 	}()
 
 	for {
-		for !sk.queue.Empty() {
+		for {
 			select {
 			case <-sk.quit:
 				wg.Wait()
@@ -172,7 +186,10 @@ func (sk *SpaceKeeper) spacePlotter() {
 			default:
 			}
 
-			qws := sk.queue.PopItem()
+			qws, ok := sk.queue.TryPopItem()
+			if !ok {
+				break
+			}
 			killMonitorCh := make(chan struct{}, 1)
 			wg.Add(1)
 			go monitor(qws.ws, killMonitorCh)
